@@ -510,7 +510,7 @@ Inductive qop := QAppend | QTruth | QPopleft.
 Inductive qev := QProd (p : nat) | QPump (i : nat).
 
 Section Queue.
-  Context {job : Type}.
+  Variable job : Type.
 
   Record qstate := mkQ {
     q_pending : list (list job);        (* per producer: jobs it has not appended yet *)
@@ -562,3 +562,14 @@ Section Queue.
   Definition proj (p : nat) (l : list (nat * job)) : list job :=
     map snd (filter (fun x => Nat.eqb (fst x) p) l).
 End Queue.
+Arguments mkQ {job}.
+Arguments q_pending {job}.
+Arguments q_queue {job}.
+Arguments q_checked {job}.
+Arguments q_sent {job}.
+Arguments q_appended {job}.
+Arguments q_err {job}.
+Arguments qinit {job}.
+Arguments qstep {job}.
+Arguments qrun {job}.
+Arguments proj {job}.
